@@ -45,6 +45,19 @@ def replay(spec):
                 outs.append(py_simulate_model(tp, Model=m, stochastic=True).to_numpy())
             if outs[0].shape != outs[1].shape or not np.allclose(outs[0], outs[1]):
                 problems.append("%s: seeded simulation of the copy differs" % name)
+        # the copy is a full model: the same further edit on a fresh original and on the copy gives the same model
+        Mo, Mc = Cls(**args), f(Cls(**args))
+        for m in (Mo, Mc):
+            m.create_reaction(["C"], [], "massaction", {"k": 0.125})
+            m.set_parameter("brand_new", 7.0)
+            m.create_reaction(["A"], ["C"], "massaction", {"k": "brand_new"})
+        if Mo.get_parameter_dictionary() != Mc.get_parameter_dictionary():
+            d1, d2 = Mo.get_parameter_dictionary(), Mc.get_parameter_dictionary()
+            problems.append("%s: after the same edit the parameters differ: %s" % (name, {k: (d1.get(k), d2.get(k)) for k in set(d1) | set(d2) if d1.get(k) != d2.get(k)}))
+        elif which != "lineage":
+            o = [py_simulate_model(tp, Model=m).to_numpy() for m in (Mo, Mc)]
+            if o[0].shape != o[1].shape or not np.allclose(o[0], o[1]):
+                problems.append("%s: after the same edit the deterministic simulations differ" % name)
         M2.set_species({"A": 1})
         if M.get_species_dictionary()["A"] != 30:
             problems.append("%s: editing the copy changed the original" % name)
